@@ -349,6 +349,31 @@ fn build_graph(rng: &mut Rng, w: &World, n: usize, amt_hint: u64, chain: ChainHa
 	ng
 }
 
+/// payer = node 0, payee = node 1, joined by np+1 … np+3 parallel zero-fee channels whose htlc_maximum is ⌊v/np⌋, ⌈v/np⌉ or
+/// one off, plus a few 2-hop detours of the same width through the other nodes.
+fn build_fan_graph(rng: &mut Rng, w: &World, n: usize, chain: ChainHash, v: u64, np: u8) -> Graph {
+	let ng: Graph = NetworkGraph::new(Network::Testnet, &LOGGER);
+	let k = np as u64 + rng.range(1, 3);
+	let floor = v / np as u64; let ceil = (v + np as u64 - 1) / np as u64;
+	let mode = rng.below(4);
+	let mut scid = 1u64;
+	let mut add = |a: usize, b: usize, hmax: u64, rng: &mut Rng| {
+		let (one, two) = if w.ids[a] < w.ids[b] { (a, b) } else { (b, a) };
+		let id = scid; scid += 1;
+		if ng.add_channel_from_partial_announcement(id, None, 0, ChannelFeatures::empty(), w.ids[one], w.ids[two]).is_err() { return; }
+		for dir in 0..2u8 {
+			let upd = UnsignedChannelUpdate { chain_hash: chain, short_channel_id: id, timestamp: 2, message_flags: 1, channel_flags: dir,
+				cltv_expiry_delta: 18 + rng.below(3) as u16, htlc_minimum_msat: 0, htlc_maximum_msat: hmax.max(1), fee_base_msat: 0, fee_proportional_millionths: 0, excess_data: vec![] };
+			let _ = ng.update_channel_unsigned(&upd);
+		}
+	};
+	for i in 0..k {
+		let hmax = match mode { 0 => floor, 1 => ceil, 2 => if i % 2 == 0 { floor } else { ceil }, _ => near(rng, floor).max(1) };
+		if i < k - 1 || n < 3 || rng.chance(1, 2) { add(0, 1, hmax, rng); } else { let mid = 2 + rng.below(n as u64 - 2) as usize; add(0, mid, hmax, rng); add(mid, 1, hmax, rng); }
+	}
+	ng
+}
+
 fn dump_graph(ng: &Graph, w: &World) -> Vec<Chan> {
 	let ro = ng.read_only();
 	let mut out = vec![];
@@ -437,7 +462,10 @@ fn router_model(args: &Args) {
 		let n = match rng.below(10) { 0..=5 => rng.range(4, 9), 6..=8 => rng.range(10, 20), _ => rng.range(21, 40) } as usize;
 		let amt_hint = match rng.below(6) { 0 => rng.range(1, 20), 1 => rng.range(1000, 100_000), 2 => 1000 * rng.range(1, 1_000_000), 3 => rng.range(1, 5_000_000_000), _ => rng.range(10_000, 50_000_000) };
 		let profile = match rng.below(10) { 0..=3 => 0, 4..=7 => 1, _ => 2 };
-		let ng = build_graph(&mut rng, &w, n, amt_hint, chain, profile);
+		// fan family: k parallel payer–payee channels whose limit sits at ⌊V/np⌋ / ⌈V/np⌉ (±1) with k > np: the
+		// fragmentation bound (a route has at most max_path_count paths) is tight exactly there
+		let fan: Option<(u64, u8)> = if rng.chance(1, 8) { let np = rng.range(2, 6) as u8; let v = rng.range(np as u64 * 3, 200_000) * if rng.chance(1, 2) { 1 } else { 1000 } + rng.range(1, np as u64 - 1); Some((v, np)) } else { None };
+		let ng = match fan { Some((v, np)) => build_fan_graph(&mut rng, &w, n, chain, v, np), None => build_graph(&mut rng, &w, n, amt_hint, chain, profile) };
 		let g = dump_graph(&ng, &w);
 		if g.is_empty() { rec.discarded += 1; continue; }
 		let gs = graph_str(&g);
@@ -463,6 +491,15 @@ fn router_model(args: &Args) {
 			pp.max_channel_saturation_power_of_half = match rng.below(4) { 0 => 0, 1 => rng.below(4) as u8, _ => 2 };
 			if !plain && rng.chance(1, 4) { for _ in 0..rng.range(1, 3) { pp.previously_failed_channels.push(rng.pick(&g).scid); } }
 			let maxfee = if plain { if rng.chance(1, 2) { None } else { Some(amt / 100 + 50_000) } } else { match rng.below(6) { 0 => None, 1 => Some(rng.below(2000)), 2 => Some(amt / 100 + 50_000), 3 => Some(rng.below(amt / 10 + 10)), 4 => Some(0), _ => None } };
+			let (payer, payee, amt, mpp, pp, maxfee) = match fan {
+				Some((v, np)) if rng.chance(3, 4) => {
+					let mut fp = PaymentParameters::for_keysend(w.pks[1], finalcltv, true);
+					fp.max_path_count = if rng.chance(4, 5) { np } else { np + 1 };
+					fp.max_channel_saturation_power_of_half = 0;
+					(0usize, 1usize, if rng.chance(3, 4) { v } else { near(&mut rng, v).max(1) }, true, fp, None)
+				},
+				_ => (payer, payee, amt, mpp, pp, maxfee),
+			};
 			let params = RouteParameters { payment_params: pp.clone(), final_value_msat: amt, max_total_routing_fee_msat: maxfee };
 			let seed_bytes = [rng.next() as u8; 32];
 			let scorer_kind = rng.below(3);
@@ -480,7 +517,10 @@ fn router_model(args: &Args) {
 					// The router's own debug assertions (this harness, like the crate's tests, builds with debug
 					// assertions) are not clauses of C16 ("every route the router RETURNS …"): no route is
 					// returned. Counted as discarded cases, reported in the notes with one example input each.
-					let own_assert = at.starts_with("router.rs") && (p1.contains("assertion failed") || p1.contains("Paths should always send more than 0 msat"));
+					// Only the two assertions observed on the unchanged tree are discarded (DESIGN 9.3, observations); any other router
+					// assertion — e.g. `paths.len() <= max_path_count`, which states a clause of C16 about the route that a release
+					// build WOULD return — is a failure with the request as the failing input.
+					let own_assert = at.starts_with("router.rs") && (p1.contains("assertion failed: false") || p1.contains("Paths should always send more than 0 msat"));
 					if own_assert {
 						rec.discarded += 1;
 						let key = format!("{} at {}", if p1.len() > 80 { &p1[..80] } else { &p1[..] }, at);
